@@ -28,6 +28,12 @@ CLAIMS = {
         text='For every operand of the 93 bindings the accepted set (intervals, congruences, alias windows, constraint closures) is derived from the guards on every path and compared, both inclusions, '
              'with the legal set from the ISA tables; every mask of an operand-derived value must be dominated by a range guard that fits the masked width. Off-by-one bounds, dropped scale checks and wrapped operands are decided for all values.',
         note='Trusted: CPython ast; bbverif/bitdom.py; operand ranges in bbverif/oracle.py (jalr uses the documented, stricter even-offset set). A guard placed on already-extracted bits is over-approximated and then reported or refused (exit 2), never passed.'),
+    'C07': dict(
+        category='proof', design='DESIGN.md §4 C07, §3.2',
+        technique='abstract interpretation of sign_extend/relocate_hi/relocate_lo over linear forms in the bits of an unbounded two\'s-complement input; coefficient identities modulo 2^12/2^20/2^32',
+        text='relocate_lo and relocate_hi are reduced to closed forms over the bits of an arbitrary integer v (exact linear form / signed residue); lo == v (mod 2^12), hi == (v>>12)+v[11] (mod 2^20) and (hi<<12)+lo == v (mod 2^32) '
+             'are then identities between coefficients, hence hold for all 2^32 values and every negative or >2^31 spelling; ranges are compared with the accepted sets derived for lui/auipc and all I/S-type consumers; Hi/Lo.eval and parse_immediate are followed by def-use.',
+        note='Trusted: CPython ast; the linear-form arithmetic of bbverif/relocdom.py; accepted sets from bbverif/bitdom.py. The pairing of the two halves emitted by the pseudo-instruction pass is decided under C03/C05.'),
 }
 
 NOT_YET = 'check not built yet (framework under construction)'
